@@ -172,6 +172,18 @@ func (r *Run) c20Signer(t *tape.Tape, kind string, log *[]string, tag string) *c
 			c.ent.Short = 1 + t.Choose(7, "c20.entropy.short")
 		} else {
 			c.ent.FailAt = []int{0, 1, 7, 8, 16, 31}[t.Choose(6, "c20.entropy.k")]
+			// the failing Read may hand out its last bytes together with the
+			// error, and the source may be healthy again afterwards: one error
+			// from the entropy source is a failed signing call all the same
+			switch t.Choose(4, "c20.entropy.shape") {
+			case 1:
+				c.ent.Partial = true
+			case 2:
+				c.ent.Partial, c.ent.Once = true, true
+				r.Fired("entropy.partial+err-once")
+			case 3:
+				c.ent.Once = true
+			}
 		}
 		inner := r.signerFor(c.key, false)
 		c.spy = &SpySigner{Inner: inner, Alg: inner.Algorithm(), Log: log, Tag: tag, OwnRand: c.ent}
